@@ -471,6 +471,9 @@ def rule_guard(T, rid):
             for st in b["stmts"]:
                 if st["k"] == "assign" and mu.field_path(st["place"])[-1:] == ["count"]:
                     rv = st["rv"]
+                    if rv["k"] == "bin" and rv["op"].startswith("Add"):
+                        # overflow checks off: `(*self).count = Add(copy (*self).count, const 1)` in one statement
+                        incs.append((bi, st))
                     if rv["k"] == "use":
                         src = op_local(rv["op"])
                         if src is not None:
